@@ -71,6 +71,7 @@ package soyhtml
 // is written by evalPrint itself.
 //@ func (*state).evalPrint
 //@   like stateMethod
+//@   trustedensures[frames-kept;C02] len(s.context) == old(len(s.context)) && forall(i, 0, len(s.context), s.context[i].vars == old(s.context[i].vars) && unchangedmap(s.context[i].vars)) && forall(i, 0, len(s.context), old(s.context)[i].vars == old(s.context[i].vars))
 //@   props C03 C08 C09
 //@   nosafety
 //@   ghost mode ast.AutoescapeType = 0
@@ -155,10 +156,24 @@ package soyhtml
 //@ func (*state).walk
 //@   like stateMethod
 //@   props C12 C08 C09
+//@   splitreturns
+//@   requires[has-frame;C02] len(s.context) >= 1
+//@   at call (*state).walk#0 assume typeis(arg1, *ast.TemplateNode)
+//@   at call (*state).walk#1 assume typeis(arg1, *ast.ListNode)
+//@   at call (*state).walk#3 assume typeis(arg1, *ast.ListNode)
+//@   at call (*state).walk#4 assume typeis(arg1, *ast.ListNode)
+//@   at call (*state).walk#5 assume typeis(arg1, *ast.ListNode)
+//@   at call (*state).walk#6 assume typeis(arg1, *ast.ListNode)
+//@   at call (*state).walk#7 assume typeis(arg1, *ast.ListNode)
+//@   requires[inv:frames-allocated;C02] forall(i, 0, len(s.context), s.context[i].vars < allocmark())
+//@   requires[inv:top-frame-distinct;C02] forall(i, 0, len(s.context) - 1, s.context[i].vars != s.context[len(s.context)-1].vars)
+//@   ensures[frames-kept;C02] len(s.context) == old(len(s.context)) && forall(i, 0, len(s.context), s.context[i].vars == old(s.context[i].vars)) && forall(i, 0, len(s.context) - 1, unchangedmap(s.context[i].vars))
+//@   ensures[block-bindings-dropped;C02] !typeis(node, *ast.LetValueNode) && !typeis(node, *ast.LetContentNode) ==> unchangedmap(s.context[len(s.context)-1].vars)
 //@   nosafety
 //@   abstractfloats
 //@   modifies *
 //@   loop 7
+//@     invariant[scope-7;C02] len(s.context) == old(len(s.context)) && forall(i, 0, len(s.context), s.context[i].vars == old(s.context[i].vars) && unchangedmap(s.context[i].vars))
 //@     orderfree -- the items of a map literal are evaluated in map order into a fresh map; evaluating an expression has no effect other than its value or a runtime error, so the order can only change which of several failing items is named in the error of a failed rendering (that text also carries a stack dump and is not reproducible anyway)
 //@   ghost werr bool = false
 //@   at call io.Writer.Write#* assert[no-write-after-failure] !werr
@@ -209,24 +224,32 @@ package soyhtml
 //@   ensures[or-short-circuit;C01] typeis(node, *ast.OrNode) ==> typeis(s.val, data.Bool) && ((nevals == 1 && t2 && unbox(s.val, data.Bool)) || (nevals == 2 && !t1 && unbox(s.val, data.Bool) == t2))
 //@   ensures[ternary;C01] typeis(node, *ast.TernNode) ==> nevals == 2 && s.val == e2
 //@   loop 0
+//@     invariant[scope-0;C02] len(s.context) == old(len(s.context)) && forall(i, 0, len(s.context), s.context[i].vars == old(s.context[i].vars) && unchangedmap(s.context[i].vars))
 //@     noterm
 //@   loop 1
+//@     invariant[scope-1;C02] len(s.context) == old(len(s.context)) + 1 && forall(i, 0, old(len(s.context)), s.context[i].vars == old(s.context[i].vars) && unchangedmap(s.context[i].vars))
 //@     noterm
 //@   loop 2
+//@     invariant[scope-2;C02] len(s.context) == old(len(s.context)) && forall(i, 0, len(s.context), s.context[i].vars == old(s.context[i].vars) && unchangedmap(s.context[i].vars))
 //@     noterm
 //@   loop 3
+//@     invariant[scope-3;C02] len(s.context) == old(len(s.context)) + 1 && forall(i, 0, old(len(s.context)), s.context[i].vars == old(s.context[i].vars) && unchangedmap(s.context[i].vars))
 //@     noterm
 //@   loop 4
+//@     invariant[scope-4;C02] len(s.context) == old(len(s.context)) && forall(i, 0, len(s.context), s.context[i].vars == old(s.context[i].vars) && unchangedmap(s.context[i].vars))
 //@     noterm
 //@   loop 5
+//@     invariant[scope-5;C02] len(s.context) == old(len(s.context)) && forall(i, 0, len(s.context), s.context[i].vars == old(s.context[i].vars) && unchangedmap(s.context[i].vars))
 //@     noterm
 //@   loop 6
+//@     invariant[scope-6;C02] len(s.context) == old(len(s.context)) && forall(i, 0, len(s.context), s.context[i].vars == old(s.context[i].vars) && unchangedmap(s.context[i].vars))
 //@     noterm
 //@   loop 7
 //@     noterm
 
 //@ func (*state).evalMsgParts
 //@   like stateMethod
+//@   trustedensures[frames-kept;C02] len(s.context) == old(len(s.context)) && forall(i, 0, len(s.context), s.context[i].vars == old(s.context[i].vars) && unchangedmap(s.context[i].vars)) && forall(i, 0, len(s.context), old(s.context)[i].vars == old(s.context[i].vars))
 //@   props C12 C08 C09
 //@   nosafety
 //@   modifies *
@@ -309,6 +332,7 @@ package soyhtml
 // built by the entry state names the outermost failing command.
 //@ func (*state).eval
 //@   like stateMethod
+//@   trustedensures[frames-kept;C02] len(s.context) == old(len(s.context)) && forall(i, 0, len(s.context), s.context[i].vars == old(s.context[i].vars) && unchangedmap(s.context[i].vars)) && forall(i, 0, len(s.context), old(s.context)[i].vars == old(s.context[i].vars))
 //@   props C19 C08 C09
 //@   nosafety
 //@   modifies *
@@ -396,6 +420,8 @@ package soyhtml
 //@   nosafety
 //@   ensures[pushes-owned-frame] scopeOK(*s) && len(*s) == old(len(*s)) + 1 && fresh((*s)[len(*s)-1].vars)
 //@   ensures[realloc-when-full] old(len(*s) == cap(*s)) ==> fresh(*s) && unchangedarray(*s)
+//@   ensures[keeps-lower-frames;C02] forall(i, 0, old(len(*s)), (*s)[i].vars == old((*s)[i].vars))
+//@   ensures[new-frame-allocated;C02] (*s)[len(*s)-1].vars < allocmark()
 //@ func (*scope).pop
 //@   props C08 C09
 //@   modifies *s
@@ -428,39 +454,49 @@ package soyhtml
 //@   ensures[pushes-owned-frame] scopeOK(*s) && len(*s) == old(len(*s)) + 1
 //@ func (*state).evalMsg
 //@   like stateMethod
+//@   trustedensures[frames-kept;C02] len(s.context) == old(len(s.context)) && forall(i, 0, len(s.context), s.context[i].vars == old(s.context[i].vars) && unchangedmap(s.context[i].vars)) && forall(i, 0, len(s.context), old(s.context)[i].vars == old(s.context[i].vars))
 //@   nosafety
 //@ func (*state).findPluralNode
 //@   like stateMethod
 //@   nosafety
 //@ func (*state).walkPlural
 //@   like stateMethod
+//@   trustedensures[frames-kept;C02] len(s.context) == old(len(s.context)) && forall(i, 0, len(s.context), s.context[i].vars == old(s.context[i].vars) && unchangedmap(s.context[i].vars)) && forall(i, 0, len(s.context), old(s.context)[i].vars == old(s.context[i].vars))
 //@   nosafety
 //@ func (*state).walkMsgBody
 //@   like stateMethod
+//@   trustedensures[frames-kept;C02] len(s.context) == old(len(s.context)) && forall(i, 0, len(s.context), s.context[i].vars == old(s.context[i].vars) && unchangedmap(s.context[i].vars)) && forall(i, 0, len(s.context), old(s.context)[i].vars == old(s.context[i].vars))
 //@   nosafety
 //@ func (*state).evalCall
 //@   like stateMethod
+//@   trustedensures[frames-kept;C02] len(s.context) == old(len(s.context)) && forall(i, 0, len(s.context), s.context[i].vars == old(s.context[i].vars) && unchangedmap(s.context[i].vars)) && forall(i, 0, len(s.context), old(s.context)[i].vars == old(s.context[i].vars))
 //@   nosafety
 //@   at call (*state).walk#0 assert[callee-binds-in-owned-frame;C08] scopeOK(arg0.context)
 //@ func (*state).renderBlock
 //@   like stateMethod
+//@   trustedensures[frames-kept;C02] len(s.context) == old(len(s.context)) && forall(i, 0, len(s.context), s.context[i].vars == old(s.context[i].vars) && unchangedmap(s.context[i].vars)) && forall(i, 0, len(s.context), old(s.context)[i].vars == old(s.context[i].vars))
 //@   nosafety
 //@ func (*state).evalFunc
 //@   like stateMethod
+//@   trustedensures[frames-kept;C02] len(s.context) == old(len(s.context)) && forall(i, 0, len(s.context), s.context[i].vars == old(s.context[i].vars) && unchangedmap(s.context[i].vars)) && forall(i, 0, len(s.context), old(s.context)[i].vars == old(s.context[i].vars))
 //@   nosafety
 //@   loop 0
 //@     invariant fresh(args) && !isnil(args)
 //@ func (*state).evalDataRef
 //@   like stateMethod
+//@   trustedensures[frames-kept;C02] len(s.context) == old(len(s.context)) && forall(i, 0, len(s.context), s.context[i].vars == old(s.context[i].vars) && unchangedmap(s.context[i].vars)) && forall(i, 0, len(s.context), old(s.context)[i].vars == old(s.context[i].vars))
 //@   nosafety
 //@ func (*state).eval2def
 //@   like stateMethod
+//@   trustedensures[frames-kept;C02] len(s.context) == old(len(s.context)) && forall(i, 0, len(s.context), s.context[i].vars == old(s.context[i].vars) && unchangedmap(s.context[i].vars)) && forall(i, 0, len(s.context), old(s.context)[i].vars == old(s.context[i].vars))
 //@   nosafety
 //@ func (*state).evaldef
 //@   like stateMethod
+//@   trustedensures[frames-kept;C02] len(s.context) == old(len(s.context)) && forall(i, 0, len(s.context), s.context[i].vars == old(s.context[i].vars) && unchangedmap(s.context[i].vars)) && forall(i, 0, len(s.context), old(s.context)[i].vars == old(s.context[i].vars))
 //@   nosafety
 //@ func (*state).at
 //@   like stateMethod
+//@   trustedensures[frames-kept;C02] len(s.context) == old(len(s.context)) && forall(i, 0, len(s.context), s.context[i].vars == old(s.context[i].vars) && unchangedmap(s.context[i].vars)) && forall(i, 0, len(s.context), old(s.context)[i].vars == old(s.context[i].vars))
 //@   nosafety
 
 // The builtin functions and directives (the default contents of the registries)
